@@ -290,7 +290,7 @@ def rewriting(cirq):
         'merge_operations(sub-circuit)': lambda c, context=None: cirq.merge_operations(
             c, lambda a, b: cirq.CircuitOperation(cirq.FrozenCircuit(a, b)) if len(set(a.qubits) | set(b.qubits)) <= 2 else None, deep=bool(context and context.deep), tags_to_ignore=context.tags_to_ignore if context else ()),
         'merge_moments': lambda c, context=None: cirq.merge_moments(c, lambda m1, m2: cirq.Moment(m1.operations + m2.operations) if not (m1.qubits & m2.qubits) and not (cirq.measurement_key_names(m1) | cirq.measurement_key_names(m2)) else None,
-                                                                   deep=bool(context and context.deep)),
+                                                                   deep=bool(context and context.deep), tags_to_ignore=context.tags_to_ignore if context else ()),
         'map_operations_and_unroll': lambda c, context=None: cirq.map_operations_and_unroll(c, lambda op, _: cirq.decompose_once(op, default=op) if len(op.qubits) == 1 and cirq.has_unitary(op) else op,
                                                                                            tags_to_ignore=context.tags_to_ignore if context else (), deep=bool(context and context.deep)),
         'index_tags+remove_tags': lambda c, context=None: cirq.remove_tags(cirq.index_tags(c, target_tags={str}), target_tags={str}) if False else c,
@@ -323,6 +323,7 @@ def run(ctx: common.Run):
         ctx.report_unproved('lean-build', f'{failing}', {'theorem_or_correspondence': failing})
         return
     check_rules(ctx, cirq)
+    check_deep_ignore(ctx, cirq, rewriting(cirq))
     check_symbolized_merge(ctx, cirq)
     check_dd(ctx, cirq)
     check_idle_gauge(ctx, cirq)
@@ -627,6 +628,45 @@ def check_idle_gauge(ctx, cirq):
             ctx.report_witness('gauge:IdleMomentsGauge', 'the gauged circuit has a different unitary / record distribution', dict(rep, impl_out=[repr(out)[:2500]], spec_out=['same meaning']))
         if circuit != before:
             ctx.report_witness('mutated-input:IdleMomentsGauge', 'the transformer modified its argument', dict(rep, impl_out=[repr(circuit)[:1500]], spec_out=[repr(before)[:1500]]))
+
+
+def check_deep_ignore(ctx, cirq, rw):
+    """tags_to_ignore with deep=True: an operation marked to be ignored is left exactly as it is at every nesting depth (top level, inside a
+    sub-circuit, inside a sub-circuit of a sub-circuit), whatever the pass does to its surroundings"""
+    rng = ctx.substream('deep-ignore')
+    q = cirq.LineQubit.range(2)
+    names = [nm for nm in rw if not nm.startswith(('unroll', 'index_tags', 'add_dynamical', 'optimize_for', 'synchronize', 'stratified', 'drop_diagonal'))]
+    for it in range(12 if ctx.tier == 'quick' else 120):
+        body = cirq.FrozenCircuit(cirq.Moment(cirq.X(q[0]) ** 0.5), cirq.Moment(cirq.H(q[1])), cirq.Moment(cirq.X(q[0]) ** 0.5), cirq.Moment(cirq.Z(q[0]) ** 0.25, cirq.H(q[1])), cirq.Moment(cirq.H(q[1])))
+        marked = cirq.CircuitOperation(body).with_tags(IGN)
+        plain = rng.choice([cirq.X(q[0]) ** 0.25, cirq.T(q[0]), cirq.H(q[0])])
+        depth = rng.choice([0, 1, 2, 2])
+        inner = [cirq.Moment(plain), cirq.Moment(marked), cirq.Moment(plain)]
+        circuit = cirq.Circuit(inner)
+        for _ in range(depth):
+            circuit = cirq.Circuit(cirq.Moment(plain), cirq.Moment(cirq.CircuitOperation(circuit.freeze())), cirq.Moment(plain))
+        context = cirq.TransformerContext(deep=True, tags_to_ignore=(IGN,))
+        for name in rng.sample(names, min(len(names), 8)):
+            try:
+                out = rw[name](circuit, context=context)
+            except (ValueError, TypeError, NotImplementedError) as e:
+                ctx.count('transformer_error', f'{name}:{type(e).__name__}:{str(e)[:30]}')
+                continue
+            ctx.count('check', 'deep-ignore:' + name.split('(')[0])
+            ctx.case(['deep-ignore', name, depth, repr(plain)], depth >= 1)
+
+            def find(c):
+                for op in c.all_operations():
+                    if op == marked:
+                        return True
+                    u = op.untagged
+                    if isinstance(u, cirq.CircuitOperation) and IGN not in op.tags and find(u.circuit):
+                        return True
+                return False
+
+            if not find(out):
+                ctx.report_witness(f'ignored-changed:{name.split("(")[0]}', 'an operation tagged to be ignored was changed inside a nested sub-circuit (deep=True)',
+                                   {'lines': [{'transformer': name, 'circuit': repr(circuit), 'depth': depth}], 'impl_out': [repr(out)[:2500]], 'spec_out': ['the tagged operation unchanged'], 'theorem_or_correspondence': 'tags_to_ignore (deep)'})
 
 
 def check_symbolized_merge(ctx, cirq):
